@@ -360,6 +360,10 @@ fn branch_follows_output(w: &mut Worker, rig: &Rig) {
                     ("while", "while p ${v} z\ntaken = set yes\ngoto :out\nend\n:out"),
                     ("not", "r = not p ${v} z\nif not ${r}\ntaken = set yes\nend"),
                     ("alias", "alias al p\nr = al ${v} z\nif ${r}\ntaken = set yes\nend"),
+                    // an alias that is invoked again while it is still running: applied to itself, and around a
+                    // function whose body uses it
+                    ("alias-twice", "alias isnt not\nr = isnt isnt p ${v} z\nif ${r}\ntaken = set yes\nend"),
+                    ("alias-reentered", "alias isnt not\nfn q\nif isnt p ${1} z\nreturn false\nend\nreturn true\nend\nr = isnt isnt q ${v}\nif ${r}\ntaken = set yes\nend"),
                     // chains that go on behind the wrapped call: exactly one branch is taken
                     ("if-else", "if p ${v} z\ntaken = set yes\nelse\nother = set yes\nend\nlast = set reached"),
                     ("elseif-else", "if false\nelseif p ${v} z\ntaken = set yes\nelse\nother = set yes\nend\nlast = set reached"),
@@ -381,7 +385,7 @@ fn branch_follows_output(w: &mut Worker, rig: &Rig) {
                         Err(p) => w.fail("branch:panic", &p, cj),
                         Ok(Err(e)) => w.fail(&format!("branch:run-failed:{}", name), &e, cj),
                         Ok(Ok((_, vars))) => {
-                            let taken = if name == "alias" { crate::props::c06::ref_truthy(vars.get("r").map(|s| s.as_str())) } else { vars.get("taken").map(|s| s == "yes").unwrap_or(false) };
+                            let taken = if name.starts_with("alias") { crate::props::c06::ref_truthy(vars.get("r").map(|s| s.as_str())) } else { vars.get("taken").map(|s| s == "yes").unwrap_or(false) };
                             let chain = line.contains("last = set reached");
                             let other = vars.get("other").map(|s| s == "yes").unwrap_or(false);
                             if chain && (vars.get("last").map(|s| s.as_str()) != Some("reached") || other == taken || vars.get("other").map(|s| s.as_str()) == Some("second")) {
@@ -574,7 +578,7 @@ pub fn crash_sig(case: &Value, kind: &str) -> String {
     format!("{}:{}:{}", kind, case["wrapper"].as_str().unwrap_or("?"), class_of(case["value"].as_str().unwrap_or("")))
 }
 
-pub const RULE: &str = "values: every string up to the length bound over {a SP \" # \\\\ $ { } % LF CR = TAB e-acute} plus 8 special values (${v}, %{v}, \\\\${v}, ${w}, 'a b', '\"a b\"', 'a  b', x=y), held in a variable and written as ${v} in first or second argument position of a capture command invoked directly, as the condition of if / elseif / while, under not, through an alias that stores the value, through an alias that is passed the value, through a user function used as predicate, through aliases whose target is `not <predicate>` (value passed or stored), and through an alias that stores the value and whose name a second alias definition then tries to take (refused); also wrappers inside wrappers (if not, while not, not not, an alias in condition position, an alias of an alias, an elseif behind a failed elseif); every wrapping line both at the top level of the script and inside the body of a user function that was itself called with two arguments. Branch family: for six predicate bodies (returning true / its argument / false after a truthy command output, falling off the end or returning bare after a command that produced an output) x plain and <scope> x 7 values the branch taken by if / elseif / while / not / an alias is the one the direct call's output dictates. Aftermath family: behind `if / elseif / while / not <user function> ${v} z` (plain and <scope> function, at top level and inside a called function, 6 values) a probe receives ${1} ${2} ${v} and a caller variable exactly as it does behind the direct call. Scale cases: 302 (thorough 3002) arguments, the first and last a value of 5000 (thorough 100000) characters of such text, through the direct call and seven wrappers. Oracle: the arguments received through the wrapper equal those received by the direct call. A failing case is classified by whether the received arguments equal what re-serialising the values into a line and parsing/binding it again yields (the recorded defect, one signature per input class) or not (a new violation). Non-trivial: the value contains a character other than plain letters. Branch families: 11 predicate bodies (5 of them with blocks of their own: inner if returning, falling through, if/else, a loop left by return, calls of library scripts) x 7 values x plain / scoped x 11 wrapping shapes, 6 of which go on behind the wrapped call (else, elseif, a second elseif, inside a while): exactly the branch decided by the direct call is taken, and the script reaches its last line. Three more wrappers: chains of aliases that store part of the arguments themselves (inner, both, three levels)";
+pub const RULE: &str = "values: every string up to the length bound over {a SP \" # \\\\ $ { } % LF CR = TAB e-acute} plus 8 special values (${v}, %{v}, \\\\${v}, ${w}, 'a b', '\"a b\"', 'a  b', x=y), held in a variable and written as ${v} in first or second argument position of a capture command invoked directly, as the condition of if / elseif / while, under not, through an alias that stores the value, through an alias that is passed the value, through a user function used as predicate, through aliases whose target is `not <predicate>` (value passed or stored), and through an alias that stores the value and whose name a second alias definition then tries to take (refused); also wrappers inside wrappers (if not, while not, not not, an alias in condition position, an alias of an alias, an elseif behind a failed elseif); every wrapping line both at the top level of the script and inside the body of a user function that was itself called with two arguments. Branch family: for six predicate bodies (returning true / its argument / false after a truthy command output, falling off the end or returning bare after a command that produced an output) x plain and <scope> x 7 values the branch taken by if / elseif / while / not / an alias is the one the direct call's output dictates. Aftermath family: behind `if / elseif / while / not <user function> ${v} z` (plain and <scope> function, at top level and inside a called function, 6 values) a probe receives ${1} ${2} ${v} and a caller variable exactly as it does behind the direct call. Scale cases: 302 (thorough 3002) arguments, the first and last a value of 5000 (thorough 100000) characters of such text, through the direct call and seven wrappers. Oracle: the arguments received through the wrapper equal those received by the direct call. A failing case is classified by whether the received arguments equal what re-serialising the values into a line and parsing/binding it again yields (the recorded defect, one signature per input class) or not (a new violation). Non-trivial: the value contains a character other than plain letters. Branch families: 11 predicate bodies (5 of them with blocks of their own: inner if returning, falling through, if/else, a loop left by return, calls of library scripts) x 7 values x plain / scoped x 11 wrapping shapes, 6 of which go on behind the wrapped call (else, elseif, a second elseif, inside a while): exactly the branch decided by the direct call is taken, and the script reaches its last line. Three more wrappers: chains of aliases that store part of the arguments themselves (inner, both, three levels). Branch family also re-enters an alias: applied to itself, and around a function whose body uses it";
 pub const ASSUMPTIONS: &[&str] = &["the capture command returns true on its first call and false afterwards (so a while loop ends)", "classification of known findings uses the real parser and binder on a transcription of the line building in utils/eval.rs"];
 pub const EXHAUSTIVE: bool = true;
 pub const WALL_CAP_S: (u64, u64) = (55, 1500);
